@@ -29,6 +29,11 @@ CALLEES = {
     "tx": ("def tx(t: Tuple[bool, bool]) -> bool:\n    return t[0] ^ t[1]\n", ["Tuple[bool, bool]"], "bool"),
     "gt": ("def gt(x: Qint[2], y: Qint[2]) -> bool:\n    c = x + y\n    d = c ^ x\n    return d > y\n", ["Qint[2]", "Qint[2]"], "bool"),
     "mx": ("def mx(x: Qint[2], y: Qint[4]) -> Qint[4]:\n    return y - x\n", ["Qint[2]", "Qint[4]"], "Qint[4]"),
+    # callees whose locals are assigned more than once (accumulator, conditional overwrite, unrolled loop, aug-assign)
+    "acc": ("def acc(x: bool, y: bool) -> bool:\n    t = x and y\n    t = t or (not x)\n    t = t ^ y\n    return t\n", ["bool", "bool"], "bool"),
+    "cw": ("def cw(x: bool, y: bool) -> bool:\n    r = x\n    if y:\n        r = not x\n    return r\n", ["bool", "bool"], "bool"),
+    "lp": ("def lp(t: Tuple[bool, bool]) -> bool:\n    h = True\n    for i in range(2):\n        h = h and t[i]\n    return h\n", ["Tuple[bool, bool]"], "bool"),
+    "ia": ("def ia(x: Qint[2], y: Qint[2]) -> Qint[2]:\n    c = x + y\n    c = c ^ y\n    c += 1\n    return c\n", ["Qint[2]", "Qint[2]"], "Qint[2]"),
 }
 
 
